@@ -35,7 +35,7 @@ class ModelMixin:
                      "ite", "unit", "is_none", "is_str", "is_int", "is_ref", "last", "ref", "allocated",
                      "held", "is_list_of_pos_int", "cls_id", "is_float", "sval", "ival", "dget", "singleton", "str", "is_bool", "is_dict", "is_list",
                      "setof", "contains", "prefix_of", "is_bytes", "is_cls", "map_int2str", "joinstr", "split", "lookup_global",
-                     "funcval", "seqmap", "extends", "only_changed", "UNSET", "unchanged", "unchanged_old", "cls_module_name", "all_reports", "empty_log", "count_failed", "suffix_of", "proj_a", "all_b", "all_tag", "card", "outside", "mro", "none_in", "is_concat", "none_missing", "is_subset", "union", "restrict", "lvk", "unlvk", "prefkeys", "setminus", "all_values", "ref_field", "filter_out", "params_of", "truthy", "is_prefix", "proj_b", "all_b_not", "all_a", "all_nat", "levelstr", "ascii_ok", "bytes_of", "str_contains", "codec_facts", "is_tuple"}
+                     "funcval", "seqmap", "extends", "only_changed", "UNSET", "unchanged", "unchanged_old", "cls_module_name", "all_reports", "empty_log", "count_failed", "suffix_of", "proj_a", "all_b", "all_tag", "card", "outside", "mro", "none_in", "is_concat", "none_missing", "is_subset", "union", "restrict", "lvk", "unlvk", "prefkeys", "setminus", "all_values", "ref_field", "handling_exception", "filter_out", "params_of", "truthy", "is_prefix", "proj_b", "all_b_not", "all_a", "all_nat", "levelstr", "ascii_ok", "bytes_of", "str_contains", "codec_facts", "is_tuple"}
 
     # ------------------------------------------------------------------ spec-mode calls
     def spec_call(self, e, st):
@@ -298,6 +298,9 @@ class ModelMixin:
             v = a[0]
             ref = Val.rv(v.t) if v.k == "val" else v.t
             return SV("val", self.hget(st, z3.simplify(a[1].t).as_string(), ref))
+        if name == "handling_exception":
+            # static: is an exception being handled at this program point (sys.exc_info() would return it)?
+            return SV("bool", z3.BoolVal(bool(st.exc_stack)))
         if name == "allocated":
             v = self.concretize(st, a[0])
             ref = Val.rv(v.t) if v.k == "val" else v.t
@@ -1043,6 +1046,8 @@ class ModelMixin:
             return self.may_raise(st, ok, "UnicodeDecodeError", lambda s: [Res(s, SV("str", self.fresh("dec", S)))])
         if name == "split":
             sep = a[0]
+            if sep.k in ("str", "bytes") and sep.k != recv.k:
+                return [self.raise_new(st, "TypeError")]       # bytes.split(str) / str.split(bytes)
             self.assumptions.add("str.split(sep)/sep.join: axiomatised (join-split inverse when no element contains sep)")
             res = str_split(t, sep.t)
             st.assume(z3.Length(res) >= 1)      # str.split(sep) never returns an empty list
